@@ -157,8 +157,8 @@ CLAIMED.update({
         technique='Rocq/Coq proof (equivalence of filled and unspecified ranges) + executed call sequences against fresh '
                   'objects + correspondence of the queries', ref='DESIGN.md section 5 C10'),
     'C12': dict(
-        text='Coq theorems (props/C12.v): the bounded heap and the whole exhaustive search depend on the score oracle only '
-             'through comparisons, so order-isomorphic scores (before/after positive rescaling; tuples vs dense ranks) give '
+        text='Coq theorems (props/C12.v): the bounded heap, the whole exhaustive search and the whole greedy search (any fuel) '
+             'depend on the score oracle only through comparisons, so order-isomorphic scores (before/after positive rescaling; tuples vs dense ranks) give '
              'identical results. Executed metamorphic pairs for both searches: shuffled rows + shifted dates, injective '
              'renaming, integer IDs, scaling by 2^k with the budget range (bit-exact comparison).',
         note=SEARCH_NOTE + ' Numeric scale laws of the kernels and the canonicalisation of the input are tied by the executed pairs; domain: distinct geo means, no score ties.',
